@@ -1431,6 +1431,11 @@ def hostile_case(case, r, idx):
         fb = bytes([0x1e])
     elif k == "ackunsent":
         fb = bytes([0x02]) + _var(1 << 29) + _var(0) + _var(0) + _var(0)
+    elif k == "ackrange":
+        # the LAST additional range is longer than the packet numbers left below it (round-4 mutant C03/r4m1
+        # checked every range but the last)
+        largest, first, more = r.choice([(5, 1, [(1, 5)]), (2, 0, [(0, 1)]), (10, 0, [(0, 0), (0, 9)]), (10, 0, [(7, 2)])])
+        fb = bytes([0x02]) + _var(largest) + _var(0) + _var(len(more)) + _var(first) + b"".join(_var(g) + _var(n) for g, n in more)
     elif k == "unknown":
         fb = bytes([0x21])
     elif k == "truncated":
